@@ -50,8 +50,9 @@ void burst_ops(World& W, int point)
     }
     if (is_prop("C20"))
     {
-      switch (c.weighted({5, 3, 2, 1, 1, kBounded ? 0u : 3u}))
+      switch (c.weighted({5, 3, 2, 1, 1, kBounded ? 0u : 3u, 1}))
       {
+      case 6: op_flush(W, pick_worker(W), true, point); break;
       case 0: op_log(W, pick_worker(W), true, point); break;
       case 1: op_exit_thread(W, pick_worker(W)); break;
       case 2: { int nw = op_start_thread(W); if (nw >= 0) op_log(W, nw, true, point); break; }
@@ -436,8 +437,9 @@ void top_level_op(World& W, Choices& c)
   }
   if (is_prop("C20"))
   {
-    switch (c.weighted({5, 6, 2, 3, 2, 2, 1}))
+    switch (c.weighted({5, 6, 2, 3, 2, 2, 1, 2}))
     {
+    case 7: op_flush(W, pick_worker(W), false, 0); break; // the backend also reclaims right after a Flush event
     case 0: op_poll(W, true); break;
     case 1: op_log(W, pick_worker(W), false, 0); break;
     case 2: op_start_thread(W); break;
